@@ -211,7 +211,7 @@ var ruleBOMTable = &core.Rule{ID: "R07.3", Min: 7,
 				}
 			}
 		}
-		rs := fde.FindRangeOver(f, tblLoad)
+		rs := fde.FindRangeOver2(f, tblLoad)
 		if tblLoad == nil || len(rs) != 1 {
 			s.Bad("lookup shape", c.Pos(f.Pos()), "BOM lookup does not range over the whole table from its first entry")
 			return
@@ -267,6 +267,12 @@ var ruleBOMTable = &core.Rule{ID: "R07.3", Min: 7,
 func isFieldOfElem(v ssa.Value, r fde.RangeElem, fld int) bool {
 	base, f, ok := core.LoadOfField(v)
 	if !ok || f != fld {
+		return false
+	}
+	if r.ElemAddr != nil && base == ssa.Value(r.ElemAddr) {
+		return true
+	}
+	if r.Load == nil {
 		return false
 	}
 	if ia, ok := r.Load.X.(*ssa.IndexAddr); ok && base == ssa.Value(ia) {
@@ -460,6 +466,8 @@ var ruleTrim = &core.Rule{ID: "R11.5", Min: 2,
 		}
 		f := p.f
 		n := 0
+		// frames: calls of trimming helpers being looked through (innermost last)
+		var frames []*ssa.Call
 		var visit func(v ssa.Value, seen map[ssa.Value]bool)
 		visit = func(v ssa.Value, seen map[ssa.Value]bool) {
 			if seen[v] {
@@ -467,7 +475,29 @@ var ruleTrim = &core.Rule{ID: "R11.5", Min: 2,
 			}
 			seen[v] = true
 			switch x := v.(type) {
+			case *ssa.Call:
+				// a module helper from bytes to bytes: what it returns is judged inside it
+				h := x.Call.StaticCallee()
+				if h == nil || !core.InMod(h) || h.Blocks == nil || len(h.Params) != 1 || len(frames) > 3 || !core.IsByteSlice(h.Params[0].Type()) || h.Signature.Results().Len() != 1 || !core.IsByteSlice(h.Signature.Results().At(0).Type()) {
+					n++
+					s.Bad("origin of validated buffer", c.Pos(p.valid.Pos()), fmt.Sprintf("validated buffer flows from %s, which is neither the input nor a re-slice of it", v))
+					return
+				}
+				frames = append(frames, x)
+				for _, r := range core.Returns(h) {
+					visit(r.Results[0], seen)
+				}
+				frames = frames[:len(frames)-1]
 			case *ssa.Parameter:
+				if len(frames) > 0 {
+					top := frames[len(frames)-1]
+					if x == top.Call.StaticCallee().Params[0] {
+						frames = frames[:len(frames)-1]
+						visit(top.Call.Args[0], seen)
+						frames = append(frames, top)
+						return
+					}
+				}
 				n++
 				s.Check(x == f.Params[0], "validated buffer originates from the input", c.Pos(p.valid.Pos()), "parameter 0", "validated buffer is not the sniffer's input")
 			case *ssa.Phi:
